@@ -441,7 +441,8 @@ def decide(prop, cfg, tier, seed, work, args, t0):
         if pres.get('inconclusive'):
             raise Inconclusive("pyvc: " + pres['inconclusive'])
         for o in pres['obligations']:
-            obligations.append(dict(id='pyvc:' + o['id'], kind='wp', fn=o['fn'], assumed=False, unit='pyvc', backend='pyvc/z3'))
+            obligations.append(dict(id='pyvc:' + o['id'], kind='wp', fn=o['fn'], assumed=False, unit=job.get('tool', 'pyvc'),
+                                    backend=('pyglue/typestate' if job.get('tool') == 'pyglue' else 'pyvc/z3')))
             if not o['ok']:
                 failed.append(dict(obligation='pyvc:' + o['id'], owner=prop, fn=o['fn'], kind='wp', where=o.get('where', ''),
                                    message=o.get('message', ''), rendered=o.get('model', ''), unit='pyvc',
